@@ -135,6 +135,24 @@ func (g *recMultiUndirected) NewLine(f, t graph.Node) graph.Line {
 	return &recLine{f: f, t: t, uid: g.UndirectedGraph.NewLine(f, t).ID()}
 }
 
+// subNode / multiSubNode are nodes that stand for a subgraph used as an edge
+// end point (dot.Subgrapher / dot.MultiSubgrapher).
+type subNode struct {
+	id int64
+	g  recGraph
+}
+
+func (n subNode) ID() int64             { return n.id }
+func (n subNode) Subgraph() graph.Graph { return n.g }
+
+type multiSubNode struct {
+	id int64
+	g  recGraph
+}
+
+func (n multiSubNode) ID() int64                  { return n.id }
+func (n multiSubNode) Subgraph() graph.Multigraph { return n.g.(graph.Multigraph) }
+
 // recGraph is what the harness needs from the four types.
 type recGraph interface {
 	graph.Graph
@@ -349,7 +367,18 @@ type dotSub struct {
 	Subs                   []dotSub
 }
 
+// dotSubNode is a node of the top-level graph that stands for the node-only
+// subgraph over Members (indices into Nodes; members belong to no other graph
+// and have no edges of their own). Edges of the top-level graph refer to
+// sub-node k by the end point -(k+1).
+type dotSubNode struct {
+	ID      int64
+	Name    []byte
+	Members []int
+}
+
 type dotCase struct {
+	SubNodes        []dotSubNode
 	Directed, Multi bool
 	NameParam       []byte // name argument of Marshal ("" = use the graph's DOTID)
 	Prefix, Indent  string
@@ -383,14 +412,18 @@ func (c dotCase) nodeExpectID(i int) string {
 
 // build constructs the source graph of sub and accumulates, in the order in
 // which Marshal prints, what Unmarshal is expected to deliver.
+type adder interface{ AddNode(graph.Node) }
+
 type dotBuilder struct {
-	c       dotCase
-	objs    []graph.Node // one object per case node, shared by all (sub)graphs
-	exp     dotSummary
-	expNode map[int][]encoding.Attribute
-	gA      []encoding.Attribute
-	nA      []encoding.Attribute
-	eA      []encoding.Attribute
+	depth     int
+	maxPrints int // largest number of times one sub-node's subgraph is printed
+	c         dotCase
+	objs      []graph.Node // one object per case node, shared by all (sub)graphs
+	exp       dotSummary
+	expNode   map[int][]encoding.Attribute
+	gA        []encoding.Attribute
+	nA        []encoding.Attribute
+	eA        []encoding.Attribute
 }
 
 func (b *dotBuilder) build(sub dotSub) recGraph {
@@ -403,7 +436,9 @@ func (b *dotBuilder) build(sub dotSub) recGraph {
 	b.nA = append(b.nA, expAttrs(sub.NAttrs)...)
 	b.eA = append(b.eA, expAttrs(sub.EAttrs)...)
 	for _, s := range sub.Subs {
+		b.depth++
 		child := b.build(s)
+		b.depth--
 		switch gg := g.(type) {
 		case *recDirected:
 			gg.subs = append(gg.subs, child.(dot.Graph))
@@ -415,7 +450,6 @@ func (b *dotBuilder) build(sub dotSub) recGraph {
 			gg.subs = append(gg.subs, child.(dot.Multigraph))
 		}
 	}
-	type adder interface{ AddNode(graph.Node) }
 	// nodes, in index order reversed to make sure the encoder sorts
 	for k := len(sub.Nodes) - 1; k >= 0; k-- {
 		g.(adder).AddNode(b.objs[sub.Nodes[k]])
@@ -429,9 +463,58 @@ func (b *dotBuilder) build(sub dotSub) recGraph {
 			b.expNode[i] = nil
 		}
 	}
+	// sub-nodes (top level only): how often each one is printed decides how
+	// often the statements of its members are seen by the decoder
+	var subObjs []graph.Node
+	if b.depth == 0 {
+		for k, sn := range c.SubNodes {
+			sg := newRec(c.Directed, c.Multi)
+			sg.getMeta().id = string(sn.Name)
+			for _, mIdx := range sn.Members {
+				sg.(adder).AddNode(b.objs[mIdx])
+			}
+			var obj graph.Node = subNode{id: sn.ID, g: sg}
+			if c.Multi {
+				obj = multiSubNode{id: sn.ID, g: sg}
+			}
+			subObjs = append(subObjs, obj)
+			g.(adder).AddNode(obj)
+			prints, outgoing := 0, 0
+			for _, e := range sub.Edges {
+				for _, end := range []int{e.F, e.T} {
+					if end == -(k + 1) {
+						prints++
+					}
+				}
+				if e.F == -(k+1) || (!c.Directed && e.T == -(k+1)) {
+					outgoing++
+				}
+			}
+			if outgoing == 0 {
+				prints++ // printed among the node definitions
+			}
+			b.maxPrints = max(b.maxPrints, prints)
+			for _, mIdx := range sn.Members {
+				for r := 0; r < prints; r++ {
+					if !c.Nodes[mIdx].Plain {
+						b.expNode[mIdx] = append(b.expNode[mIdx], expAttrs(c.Nodes[mIdx].Attrs)...)
+					} else if _, ok := b.expNode[mIdx]; !ok {
+						b.expNode[mIdx] = nil
+					}
+				}
+			}
+		}
+	}
+	ends := func(i int) (graph.Node, []int) {
+		if i < 0 {
+			return subObjs[-i-1], c.SubNodes[-i-1].Members
+		}
+		return b.objs[i], []int{i}
+	}
 	for _, e := range sub.Edges {
 		p := ports{string(e.FPort), e.FComp, string(e.TPort), e.TComp}
-		f, t := b.objs[e.F], b.objs[e.T]
+		f, fs := ends(e.F)
+		t, ts := ends(e.T)
 		switch gg := g.(type) {
 		case *recDirected:
 			gg.SetEdge(&recEdge{f: f, t: t, ports: p, attrList: toAttrs(e.Attrs)})
@@ -443,12 +526,16 @@ func (b *dotBuilder) build(sub dotSub) recGraph {
 			gg.SetLine(&recLine{f: f, t: t, uid: gg.UndirectedGraph.NewLine(f, t).ID(), ports: p, attrList: toAttrs(e.Attrs)})
 		}
 		ep := ports{dotExpect(p.fp), p.fc, dotExpect(p.tp), p.tc}
-		b.exp.Edges = append(b.exp.Edges, edgeString(c.Directed, c.nodeExpectID(e.F), c.nodeExpectID(e.T), ep, expAttrs(e.Attrs)))
+		for _, fi := range fs {
+			for _, ti := range ts {
+				b.exp.Edges = append(b.exp.Edges, edgeString(c.Directed, c.nodeExpectID(fi), c.nodeExpectID(ti), ep, expAttrs(e.Attrs)))
+			}
+		}
 	}
 	return g
 }
 
-func (c dotCase) hasSubs() bool { return len(c.Top.Subs) > 0 }
+func (c dotCase) hasSubs() bool { return len(c.Top.Subs) > 0 || len(c.SubNodes) > 0 }
 
 // strings lists every string of the case that passes through quoteID.
 func (c dotCase) strings() []string {
@@ -461,6 +548,9 @@ func (c dotCase) strings() []string {
 				out = append(out, string(a.K), string(a.V))
 			}
 		}
+	}
+	for _, sn := range c.SubNodes {
+		out = append(out, string(sn.Name))
 	}
 	var walk func(s dotSub)
 	walk = func(s dotSub) {
@@ -526,7 +616,7 @@ func checkDOT(c dotCase) *vk.Failure {
 		}
 	}
 	kind := map[bool]string{false: "simple", true: "multi"}[c.Multi] + map[bool]string{false: " undirected", true: " directed"}[c.Directed]
-	vk.Class(fmt.Sprintf("rt dot %s quoting=%v verbatim-ids=%v subgraphs=%v", kind, quoting, verbatim, c.hasSubs()))
+	vk.Class(fmt.Sprintf("rt dot %s quoting=%v verbatim-ids=%v subgraphs=%v subgraph-vertices=%v", kind, quoting, verbatim, len(c.Top.Subs) > 0, len(c.SubNodes) > 0))
 	if quoting || verbatim || c.hasSubs() {
 		vk.NonTrivial("dot", fmt.Sprintf("%+v", c))
 	}
@@ -552,9 +642,21 @@ func checkDOT(c dotCase) *vk.Failure {
 	}
 	got := summarize(g2, c.Directed)
 	if got.String() != b.exp.String() {
-		return vk.Failf("roundtrip-differs", "Unmarshal(Marshal(g)) holds\n%s\nexpected\n%s\nDOT:\n%s", got, b.exp, b1)
+		key := "roundtrip-differs"
+		if b.maxPrints >= 2 {
+			// a subgraph used as an edge end point is printed once per use; the
+			// decoder is known to see its nodes only the first time
+			key = "roundtrip-differs-subgraph-vertex-reused"
+		}
+		return vk.Failf(key, "Unmarshal(Marshal(g)) holds\n%s\nexpected\n%s\nDOT:\n%s", got, b.exp, b1)
 	}
-	// second generation: a fixed point
+	if verbatim {
+		// decoded strings differ from the originals (unquoted form), and the
+		// unquoted form may itself have the shape of an ID: the documented
+		// limit of the verbatim rule, nothing is promised for the next generation
+		return nil
+	}
+	// second generation: a fixed point (every decoded string is the original string)
 	b2, err := marshalRec(g2, "", c.Prefix, c.Indent)
 	if err != nil {
 		return vk.Failf("remarshal-error", "Marshal of the decoded graph: %v", err)
@@ -567,8 +669,7 @@ func checkDOT(c dotCase) *vk.Failure {
 	if err != nil {
 		return vk.Failf("remarshal-error", "third Marshal: %v", err)
 	}
-	if !verbatim {
-		// without verbatim IDs every decoded string is the original string
+	{
 		if s3 := summarize(g3, c.Directed); s3.String() != got.String() {
 			return vk.Failf("second-generation-differs", "second decode holds\n%s\nfirst decode\n%s", s3, got)
 		}
@@ -802,6 +903,51 @@ func drawDOT(t *rapid.T) dotCase {
 		}
 	}
 	c.Top = subs[0]
+	// sub-nodes: their members are fresh nodes that belong to nothing else
+	if rapid.IntRange(0, 3).Draw(t, "subnodes") == 0 {
+		nsn := rapid.IntRange(1, 2).Draw(t, "nsubnodes")
+		for k := 0; k < nsn; k++ {
+			sn := dotSubNode{ID: idBase + int64(n+10+k)*idStep, Name: drawDOTString(t, "snname", true)}
+			for j := rapid.IntRange(0, 2).Draw(t, "snmembers"); j > 0; j-- {
+				nd := dotNode{ID: idBase + int64(len(c.Nodes)+20)*idStep, DOTID: drawDOTString(t, "id", true), Attrs: drawDOTAttrs(t, "nattr", 2)}
+				c.Nodes = append(c.Nodes, nd)
+				i := len(c.Nodes) - 1
+				for q := 0; seen[c.nodeExpectID(i)]; q++ {
+					c.Nodes[i].DOTID = []byte(fmt.Sprintf("m%d_%d", i, q))
+				}
+				seen[c.nodeExpectID(i)] = true
+				sn.Members = append(sn.Members, i)
+			}
+			c.SubNodes = append(c.SubNodes, sn)
+		}
+		// edges between sub-nodes and ordinary top-level nodes or other sub-nodes
+		var cand []int
+		for _, i := range c.Top.Nodes {
+			cand = append(cand, i)
+		}
+		for k := range c.SubNodes {
+			cand = append(cand, -(k + 1))
+		}
+		for k := range c.SubNodes {
+			for _, other := range cand {
+				if other == -(k+1) || (other < 0 && -other-1 < k) || rapid.IntRange(0, 2).Draw(t, "snedge") != 0 {
+					continue
+				}
+				e := dotEdge{F: -(k + 1), T: other, Attrs: drawDOTAttrs(t, "eattr", 2)}
+				if rapid.Bool().Draw(t, "snflip") {
+					e.F, e.T = e.T, e.F
+				}
+				// ports only at ordinary nodes
+				if e.F >= 0 {
+					e.FPort, e.FComp = drawPort(t, "fport")
+				}
+				if e.T >= 0 {
+					e.TPort, e.TComp = drawPort(t, "tport")
+				}
+				c.Top.Edges = append(c.Top.Edges, e)
+			}
+		}
+	}
 	// nest: sub 3 (if any) goes inside sub 1
 	for o := 1; o <= nsub; o++ {
 		if o == 3 && rapid.Bool().Draw(t, "nest") {
@@ -814,7 +960,7 @@ func drawDOT(t *rapid.T) dotCase {
 }
 
 func TestDOTRoundTrip(t *testing.T) {
-	vk.Run(t, "dot-rt", vk.Opts{Quick: 24000, Thorough: 480000, NoCrumb: true}, drawDOT, checkDOT)
+	vk.Run(t, "dot-rt", vk.Opts{Quick: 24000, Thorough: 300000, NoCrumb: true}, drawDOT, checkDOT)
 }
 
 // single strings in every position, exhaustively over the fixed word lists:
@@ -1006,5 +1152,5 @@ func drawDOTBytes(t *rapid.T) dotBytesCase {
 }
 
 func TestDOTTotality(t *testing.T) {
-	vk.Run(t, "dot-total", vk.Opts{Quick: 24000, Thorough: 480000, NoCrumb: true}, drawDOTBytes, checkDOTBytes)
+	vk.Run(t, "dot-total", vk.Opts{Quick: 24000, Thorough: 300000, NoCrumb: true}, drawDOTBytes, checkDOTBytes)
 }
